@@ -13,6 +13,7 @@ import Pyiga.Proofs.TensorOperator
 import Pyiga.Proofs.TensorGen
 import Pyiga.Proofs.TensorT2C
 import Pyiga.Proofs.TensorGreedy
+import Pyiga.Proofs.TensorGetitemT
 import Mathlib.Tactic.NormNum
 import Mathlib.Tactic.FieldSimp
 
@@ -193,6 +194,74 @@ def leafB : Ten α → Bool
 theorem leafB_isLeaf (T : Ten α) (h : leafB T = true) : T.isLeaf := by
   cases T <;> simp [leafB, Ten.isLeaf] at h ⊢
 
+/-! ## index expressions: `_normalize_indices`, `__getitem__`, `squeeze` -/
+
+/-- **Python slice semantics**: `range(n)[slice(a, b, c)]` raises `ValueError` for step 0 and is otherwise the
+arithmetic progression `range(*slice(a, b, c).indices(n))`: start `pyStart`, step `c`, `pyCount` terms, where
+`pyStart/pyStop` wrap negative bounds once, clamp to `[0, n]` (`[-1, n-1]` for negative steps) and default to the
+ends.  (Transliteration of CPython's `PySlice_AdjustIndices`; `None` = missing.) -/
+theorem slice_semantics (n : Nat) (a b c : Option Int) :
+    sliceRange n a b c = if c.getD 1 = 0 then .error .value else
+      .ok ((List.range (pyCount (pyStart n (c.getD 1) a) (pyStop n (c.getD 1) b) (c.getD 1))).map
+        (fun (k : Nat) => (pyStart n (c.getD 1) a + Int.ofNat k * c.getD 1).toNat)) := sliceRange_eq n a b c
+
+/-- the terms of that progression are exactly inside the adjusted bounds: for a positive step
+`start ≤ x < stop`, for a negative step `stop < x ≤ start` -/
+theorem slice_terms_between (s e st : Int) (k : Nat) (hst : st ≠ 0) (hk : k < pyCount s e st) :
+    (st < 0 → e < s + (k : Int) * st ∧ s + (k : Int) * st ≤ s) ∧
+    (¬ st < 0 → s ≤ s + (k : Int) * st ∧ s + (k : Int) * st < e) := progression_between s e st k hst hk
+
+/-- **`_normalize_indices` spec**: on success the tuple is not longer than the number of axes (missing trailing axes
+are full slices), every selected position — from an int (negative wraps), a slice (any step) or an index list — lies
+inside its axis, `shape_new` lists the selection lengths, and `singleton` is the strictly increasing list of the
+int-indexed axes, each selecting exactly one position. -/
+theorem normalize_indices_spec (I : List PyIndex) (s : List Nat) (nm : NormIdx) (h : normalizeIndices I s = .ok nm) :
+    I.length ≤ s.length ∧ IdxOK nm.idx s ∧ nm.shape = nm.idx.map List.length ∧ StrictFrom 0 nm.singl ∧
+      ∀ j ∈ nm.singl, j < s.length ∧ (nm.idx.map List.length).getD j 0 = 1 := normalizeIndices_ok I s nm h
+
+section GetItem
+
+/-- **`T[I]` for Canonical and Tucker tensors**: row selection of the factor matrices followed by `squeeze` of the
+int-indexed axes expands to the per-axis selection of the expansion with those axes removed — for every index
+tuple (ints, negative ints, slices with steps, index lists, missing trailing axes); the scalar case (all ints)
+returns the entry. -/
+theorem faithful_getitem_leaf (T : Ten α) (hw : T.WF) (I : List PyIndex) (r : Res α)
+    (hleaf : (∃ Xs, T = .can Xs) ∨ (∃ Us X, T = .tucker Us X)) (h : T.getitem I = .ok r) :
+    ∃ nm, normalizeIndices I T.shape = .ok nm ∧ (T.asarray.take nm.idx).squeeze nm.singl = .ok r.asarray ∧
+      (∀ T', r = .t T' → T'.WF ∧ T'.isLeaf) := by
+  rcases hleaf with ⟨Xs, rfl⟩ | ⟨Us, X, rfl⟩
+  · simp only [Ten.getitem] at h
+    exact canGetitem_spec Xs hw I r h
+  · simp only [Ten.getitem] at h
+    exact tuckerGetitem_spec Us X hw I r h
+
+/-- **`squeeze(axis)`** of Canonical and Tucker tensors (axis `None`, an int or a tuple, negative values allowed,
+no repetitions): `np.squeeze` of the expansion — the singleton factors are multiplied into the first remaining
+factor (Canonical) resp. contracted into the core (Tucker); squeezing every axis returns the single entry. -/
+theorem faithful_squeeze_leaf (T : Ten α) (hw : T.WF) (axis : Option (List Int)) (r : Res α)
+    (h : T.squeeze axis = .ok r) :
+    ∃ pos : List Nat, squeezeAxes false T.shape axis = .ok (pos.map Int.ofNat) ∧
+      (pos.Nodup → T.asarray.squeeze pos = .ok r.asarray ∧ (∀ T', r = .t T' → T'.WF ∧ T'.isLeaf)) := by
+  cases T with
+  | can Xs => exact canSqueeze_spec Xs hw axis r h
+  | tucker Us X => exact tuckerSqueeze_spec Us X hw axis r h
+  | full _ => simp [Ten.squeeze] at h
+  | sum _ _ => simp [Ten.squeeze] at h
+  | prod _ _ => simp [Ten.squeeze] at h
+
+/-- a result of indexing as a tensor object (a scalar becomes a 0-dimensional array) -/
+def resToTen : Res α → Ten α
+  | .t T => T
+  | .s a => .full (Full.ofFn [] (fun _ => a))
+
+theorem resToTen_asarray (r : Res α) : (resToTen r).asarray = r.asarray := by
+  cases r with
+  | t T => rfl
+  | s a =>
+    simp only [resToTen, Res.asarray, Ten.asarray, Ten.shape, ofFn_shape, Ten.entry]
+    exact ofFn_get_self _ _
+end GetItem
+
 /-! ## every operation sequence -/
 
 /-- operations of the arithmetic fragment; operands are positions in the environment, a
@@ -200,6 +269,7 @@ successful result is appended to it -/
 inductive SeqOp (α : Type) where
   | neg (a : Nat) | add (a b : Nat) | sub (a b : Nat) | tsum (refs : List Nat) | asarr (a : Nat) | c2t (a : Nat)
   | nway (a : Nat) (ops : List (Option (Mat α))) | pad (a : Nat) (pw : List (Option (Nat × Nat))) | t2c (a : Nat)
+  | get (a : Nat) (I : List PyIndex) | squeeze (a : Nat)
 
 /-- fetch operands by position -/
 def getAll {β : Type} (env : List β) : List Nat → Option (List β)
@@ -231,6 +301,18 @@ def stepT [DecidableEq α] (env : List (Ten α)) : SeqOp α → Option (Except E
       match A with
       | .tucker Us X => pure (canFromTensor (.tucker Us X))
       | _ => none
+  | .get a I => do
+      let A ← env[a]?
+      match A with
+      | .can Xs => pure ((Ten.getitem (.can Xs) I).map resToTen)
+      | .tucker Us X => pure ((Ten.getitem (.tucker Us X) I).map resToTen)
+      | _ => none
+  | .squeeze a => do
+      let A ← env[a]?
+      match A with
+      | .can Xs => pure ((canSqueeze Xs none).map resToTen)
+      | .tucker Us X => pure ((tuckerSqueeze Us X none).map resToTen)
+      | _ => none
 
 /-- the same operation on the expanded tensors (numpy) -/
 def stepF (env : List (Full α)) : SeqOp α → Option (Except Err (Full α))
@@ -243,6 +325,8 @@ def stepF (env : List (Full α)) : SeqOp α → Option (Except Err (Full α))
   | .nway a ops => (env[a]?).map (fun A => A.nway ops)
   | .pad a pw => (env[a]?).map (fun A => A.pad (padWidths pw))
   | .t2c a => (env[a]?).map (fun A => .ok A)
+  | .get a I => (env[a]?).map (fun A => do let nm ← normalizeIndices I A.shape; (A.take nm.idx).squeeze nm.singl)
+  | .squeeze a => (env[a]?).map (fun A => A.squeeze ((List.range A.shape.length).filter (fun i => A.shape.getD i 0 = 1)))
 
 /-- run a sequence; `none` as soon as a step refers to a missing operand or raises -/
 def runT [DecidableEq α] : List (Ten α) → List (SeqOp α) → Option (List (Ten α))
@@ -357,9 +441,87 @@ theorem step_faithful [DecidableEq α] (env : List (Ten α)) (hw : ∀ T ∈ env
     | can _ => simp at h
     | sum _ _ => simp at h
     | prod _ _ => simp at h
+  | get a I =>
+    simp only [stepT, Option.bind_eq_bind, Option.bind_eq_some_iff] at h
+    obtain ⟨A, hA, h⟩ := h
+    have hwA := hw A (List.mem_of_getElem? hA)
+    have key : ∀ (hleaf : (∃ Xs, A = .can Xs) ∨ (∃ Us X, A = .tucker Us X)) (r : Res α),
+        A.getitem I = .ok r → T = resToTen r →
+        stepF (env.map Ten.asarray) (.get a I) = some (.ok T.asarray) ∧ T.WF := by
+      intro hleaf r hr hT
+      obtain ⟨nm, hnm, hsq, hwf⟩ := faithful_getitem_leaf A hwA I r hleaf hr
+      subst hT
+      refine ⟨?_, ?_⟩
+      · simp only [stepF, List.getElem?_map, hA, Option.map_some]
+        have : normalizeIndices I A.asarray.shape = .ok nm := hnm
+        rw [this]
+        simp only [bind, Except.bind, hsq, resToTen_asarray]
+      · cases r with
+        | t T' => exact (hwf T' rfl).1
+        | s a => trivial
+    cases A with
+    | can Xs =>
+      simp only [Option.pure_def, Option.some.injEq] at h
+      cases hr : Ten.getitem (.can Xs) I with
+      | error e => rw [hr] at h; cases h
+      | ok r => rw [hr] at h; injection h with h; exact key (Or.inl ⟨Xs, rfl⟩) r hr h.symm
+    | tucker Us X =>
+      simp only [Option.pure_def, Option.some.injEq] at h
+      cases hr : Ten.getitem (.tucker Us X) I with
+      | error e => rw [hr] at h; cases h
+      | ok r => rw [hr] at h; injection h with h; exact key (Or.inr ⟨Us, X, rfl⟩) r hr h.symm
+    | full _ => simp at h
+    | sum _ _ => simp at h
+    | prod _ _ => simp at h
+  | squeeze a =>
+    simp only [stepT, Option.bind_eq_bind, Option.bind_eq_some_iff] at h
+    obtain ⟨A, hA, h⟩ := h
+    have hwA := hw A (List.mem_of_getElem? hA)
+    have filt : ∀ (shape : List Nat),
+        (∀ p ∈ (List.range shape.length).filter (fun i => shape.getD i 0 = 1), p < shape.length ∧ shape.getD p 0 = 1) ∧
+        ((List.range shape.length).filter (fun i => shape.getD i 0 = 1)).Nodup := by
+      intro shape
+      refine ⟨fun p hp => ?_, List.Nodup.sublist List.filter_sublist List.nodup_range⟩
+      simpa [List.mem_filter] using hp
+    cases A with
+    | can Xs =>
+      simp only [Option.pure_def, Option.some.injEq] at h
+      cases hr : canSqueeze Xs none with
+      | error e => rw [hr] at h; cases h
+      | ok r =>
+        rw [hr] at h; injection h with h; subst h
+        obtain ⟨hf1, hf2⟩ := filt (Xs.map (·.rows))
+        obtain ⟨e, w⟩ := canSqueeze_core Xs hwA _ hf2 (fun p hp => by simpa using (hf1 p hp).1)
+          (fun p hp => (hf1 p hp).2) none rfl r hr
+        refine ⟨?_, ?_⟩
+        · simp only [stepF, List.getElem?_map, hA, Option.map_some]
+          have : (Ten.can Xs).asarray.shape = Xs.map (·.rows) := rfl
+          rw [this, e, resToTen_asarray]
+        · cases r with
+          | t T' => exact (w T' rfl).1
+          | s a => trivial
+    | tucker Us X =>
+      simp only [Option.pure_def, Option.some.injEq] at h
+      cases hr : tuckerSqueeze Us X none with
+      | error e => rw [hr] at h; cases h
+      | ok r =>
+        rw [hr] at h; injection h with h; subst h
+        obtain ⟨hf1, hf2⟩ := filt (Us.map (·.rows))
+        obtain ⟨e, w⟩ := tuckerSqueeze_core Us X hwA _ hf2 (fun p hp => by simpa using (hf1 p hp).1)
+          (fun p hp => (hf1 p hp).2) none rfl r hr
+        refine ⟨?_, ?_⟩
+        · simp only [stepF, List.getElem?_map, hA, Option.map_some]
+          have : (Ten.tucker Us X).asarray.shape = Us.map (·.rows) := rfl
+          rw [this, e, resToTen_asarray]
+        · cases r with
+          | t T' => exact (w T' rfl).1
+          | s a => trivial
+    | full _ => simp at h
+    | sum _ _ => simp at h
+    | prod _ _ => simp at h
 
 /-- **faithfulness for every operation sequence** of the arithmetic fragment
-(`neg`, `+`, `-`, `TensorSum(...)`, `asarray`, Canonical→Tucker and Tucker→Canonical conversion on all five tensor
+(`neg`, `+`, `-`, `TensorSum(...)`, `asarray`, Canonical→Tucker and Tucker→Canonical conversion on all five tensor (`getitem` with every index kind and `squeeze()` on Canonical/Tucker)
 classes arbitrarily nested, mixed formats, any order/shape/rank; `apply_tprod` and `pad` on
 ndarray/Canonical/Tucker operands): running the library's
 operations on tensor objects and expanding at the end equals running numpy's operations on
